@@ -406,6 +406,39 @@ def validate(traces, name, module="TraceGfa"):
                 by_id=by_id)
 
 
+def slim(t):
+    """what is kept of a trace after validation: no observations"""
+    return {"id": t["id"], "kind": t["kind"], "cfg": t["cfg"], "src": t["src"], "n": len(t["ev"]),
+            "ev": [{"op": {"k": e["op"]["k"], "id": e["op"]["id"]}, "res": e["res"], "exc": e["exc"],
+                    "qdiff": e.get("qdiff"), "dig": (e["obs"].get("dig") if isinstance(e["obs"], dict) else None)}
+                   for e in t["ev"]]}
+
+
+def replay_validate(jobs, name, extra_traces=(), chunk=6000, module="TraceGfa"):
+    """Replays and validates in chunks so that memory stays bounded.  Returns
+    dict(rejects, states, by_id (slim traces), ntraces)."""
+    rejects, by_id = [], {}
+    states = 0
+    pending = list(extra_traces)
+    n = 0
+    for start in range(0, max(len(jobs), 1), chunk):
+        part = jobs[start:start + chunk]
+        traces = replay_all(part) if part else []
+        if pending:
+            traces = traces + pending
+            pending = []
+        if not traces:
+            continue
+        r = validate(traces, "%s-%d" % (name, start // chunk), module)
+        rejects += r["rejects"]
+        states += r["states"]
+        n += len(traces)
+        for t in traces:
+            by_id[t["id"]] = slim(t)
+        del traces, r
+    return dict(rejects=rejects, states=states, by_id=by_id, ntraces=n)
+
+
 # --------------------------------------------------------------------------
 # random histories (seeded), used by the quick tier and as a smoke test
 
@@ -551,17 +584,16 @@ def run_pipeline(out, jobs_by_name, mc_specs, prop):
         all_jobs += history_jobs(leaves, ops, catname, "mc")
     for name, jobs in jobs_by_name.items():
         all_jobs += jobs
-    traces = replay_all(all_jobs)
     st_traces, st_stats = suite_traces("suite-" + prop)
     out.add_cov(test_suite_traces=len(st_traces), test_suite_hook_events=st_stats.get("events", 0),
                 test_suite_traces_skipped_big=st_stats.get("big", 0))
-    traces = traces + st_traces
-    r = validate(traces, "val-" + prop)
+    r = replay_validate(all_jobs, "val-" + prop, extra_traces=st_traces)
+    traces = list(r["by_id"].values())
     nontrivial = set()
     for t in traces:
         if any(e["res"] == "ok" and e["op"]["k"] in ("rm", "disc", "ren") for e in t["ev"]) or \
                 sum(1 for e in t["ev"] if e["res"] == "ok") >= 2:
-            nontrivial.add(json.dumps(t["src"], sort_keys=True))
+            nontrivial.add(hashlib.md5(json.dumps(t["src"], sort_keys=True).encode()).hexdigest())
     out.add_cov(states=st_states + r["states"], transitions=st_trans + r["states"],
                 spec_states=st_states, spec_transitions=st_trans, spec_histories=nh,
                 traces_validated_against_impl=len(traces), events_validated=r["states"],
@@ -644,11 +676,11 @@ def validate_perm_groups(traces, jobs, name):
     jb = {j["id"]: j for j in jobs}
     for t in traces:
         j = jb.get(t["id"])
-        if not j or not j.get("strict") or not t["ev"] or "broken" in t["ev"][-1]["obs"]:
+        if not j or not j.get("strict") or not t["ev"] or not t["ev"][-1].get("dig"):
             continue
         key = json.dumps([j["doc"], j["cfg"]])
         g = by_doc.setdefault(key, {"id": t["id"], "digs": [], "res": [], "ids": []})
-        g["digs"].append(t["ev"][-1]["obs"]["dig"])
+        g["digs"].append(t["ev"][-1]["dig"])
         g["res"].append("+".join(sorted(e["res"] for e in t["ev"])))
         g["ids"].append(t["id"])
     groups = [g for g in by_doc.values() if len(g["digs"]) > 1]
